@@ -388,7 +388,8 @@ class AudioThread(threading.Thread):
     self.audio = audio
     self.device_manager = device_manager
     self.dfmt = dfmt
-    self.channels = kwargs.pop("nchannels", channels)
+    channels = kwargs.pop("nchannels", channels) # Backwards compatibility
+    self.channels = channels
     self.chunk_size = chunks.size if chunk_size is None else chunk_size
 
     # Lockers
